@@ -104,6 +104,24 @@ func getSimpleSelectResult(stmt ast.Statement) string {
 	return formatLiteralValue(literal)
 }
 
+// formatLiteralElements formats the elements of an array or tuple literal the way they appear in
+// query results ([1,'a'], (1,2)); an element that is not a literal has no such form.
+func formatLiteralElements(elems []ast.Expression, open, close string) string {
+	parts := make([]string, 0, len(elems))
+	for _, e := range elems {
+		el, ok := e.(*ast.Literal)
+		if !ok {
+			return ""
+		}
+		s := formatLiteralValue(el)
+		if _, isString := el.Value.(string); isString && el.Type == ast.LiteralString {
+			s = "'" + s + "'"
+		}
+		parts = append(parts, s)
+	}
+	return open + strings.Join(parts, ",") + close
+}
+
 // formatLiteralValue formats a literal value as it would appear in query results
 func formatLiteralValue(lit *ast.Literal) string {
 	switch v := lit.Value.(type) {
@@ -118,6 +136,16 @@ func formatLiteralValue(lit *ast.Literal) string {
 			return "1"
 		}
 		return "0"
+	case uint64:
+		return fmt.Sprintf("%d", v)
+	case nil:
+		return "\\N"
+	case []ast.Expression:
+		// never print the element pointers themselves: their addresses differ from one parse to the next
+		if lit.Type == ast.LiteralTuple {
+			return formatLiteralElements(v, "(", ")")
+		}
+		return formatLiteralElements(v, "[", "]")
 	default:
 		return fmt.Sprintf("%v", v)
 	}
